@@ -236,8 +236,39 @@ Definition e5 : bool :=
    `&mut` (which collection and poison guards hand out), so the guard could be pointed at a lock that was never acquired *)
 Definition e6 : bool := is_nil_str public_fields && negb key_has_public_field.
 
-Definition wf_data_known : bool := e1 && e2 && e3 && e5 && e6. (* everything but the known finding F5 *)
+(* E7: through `&self` — which any number of threads can have at once — a safe public function of a lock, collection or
+   wrapper hands out a reference to the payload, a guard or the guard / data structure of a Lockable only in exchange for
+   the key (by value) or a Keyable: whatever its name is *)
+Definition e7 : bool :=
+  forallb (fun f => implb (str_in (fn_owner f) lock_types && safe_public f && fn_shared_self_returns_data f)
+                          (fn_key_val f || fn_keyable_val f)) fns.
+
+Definition wf_data_known : bool := e1 && e2 && e3 && e5 && e6 && e7. (* everything but the known finding F5 *)
 Definition wf_data : bool := wf_data_known && e4.
+
+(* ---------------------------------------------------------------- offending items of the current API
+   When a rule fails, the items of the regenerated table that break it: a concrete function or trait impl of the current
+   tree (a program that uses it compiles) — the failing input the check reports. *)
+Definition fn_id (f : fnrow) : string * string * string := (fn_owner f, fn_name f, fn_trait f).
+Definition c14_offending_fns : list (string * string * string) :=
+  map fn_id (filter (fun f =>
+    (safe_public f && fn_returns_key f &&
+     negb (fn_key_val f || fn_keyable_val f || fn_guard_val f ||
+           (String.eqb (fn_owner f) "ThreadKey" && String.eqb (fn_name f) "get"))) ||
+    (safe_public f && str_in (fn_name f) acquire_names && str_in (fn_owner f) lock_types && negb (fn_key_val f || fn_keyable_val f)) ||
+    (safe_public f && fn_returns_guard f && negb (fn_key_val f))) fns).
+Definition c14_offending_impls : list (string * string) :=
+  filter (fun x => (str_in (fst x) key_carriers || str_in (fst x) hold_carriers) &&
+                   str_in (snd x) ["Clone"; "Copy"; "Default"]) trait_impls.
+Definition c15_offending_fns : list (string * string * string) :=
+  map fn_id (filter (fun f =>
+    (str_in (fn_name f) entry_names && negb (fn_unsafe f || negb (fn_public f))) ||
+    (String.eqb (fn_owner f) "OwnedLockCollection" && safe_public f && fn_returns_shared_child f) ||
+    (str_in (fn_owner f) cache_types && safe_public f && fn_mut_self f && negb (String.eqb (fn_trait f) "Drop")) ||
+    (str_in (fn_owner f) lock_types && safe_public f && fn_shared_self_returns_data f && negb (fn_key_val f || fn_keyable_val f))) fns).
+Definition c15_offending_impls : list (string * string) :=
+  filter (fun x => (String.eqb (fst x) "OwnedLockCollection" && str_in (snd x) ["AsRef"; "Deref"; "IntoIterator&"]) ||
+                   (str_in (fst x) cache_types && str_in (snd x) mut_traits)) trait_impls.
 
 (* ---------------------------------------------------------------- a grid of concrete types, for counterexample search *)
 Definition payloads : list ty := [TPay true true; TPay true false; TPay false true; TPay false false].
